@@ -226,6 +226,13 @@ func c13Run(f []string) string {
 		return ans
 	}
 	op := f[0]
+	if op == "tparse" {
+		return c13TParse(string(UnHex(f[1])), UnHexListS(f[2]))
+	}
+	switch op { // the d-ops differ only in what the MODEL is told (layouts instead of instants)
+	case "dsort", "dsortspec", "dagg", "dcmpseq", "daxioms":
+		op = op[1:]
+	}
 	name := string(UnHex(f[1]))
 	keys := UnHexListS(f[2])
 	vals := c13Values(f[3], len(keys))
@@ -846,7 +853,7 @@ func c13Gen(r *Rand, tier string) []string {
 	}
 	var out []string
 	for i := 0; i < n; i++ {
-		class := Pick(r, []int{0, 0, 1, 2, 3, 4, 5, 6, 6, 7, 7})
+		class := Pick(r, []int{0, 0, 1, 2, 3, 4, 5, 6, 6, 7, 7, 8, 8, 8, 9, 10, 11})
 		size := r.Range(0, 7)
 		if r.Chance(1, 8) {
 			size = r.Range(8, 12)
@@ -854,19 +861,36 @@ func c13Gen(r *Rand, tier string) []string {
 		if r.Chance(1, 25) {
 			size = r.Range(13, 40)
 		}
-		set := c13MakeSet(r, c13KeySet(r, class, size))
+		var ks []string
+		switch class {
+		case 8: // one layout with a zone, the same instants written in several zones
+			ks = c13ZonePool(r, size)
+		case 9: // respellings of the same instant that one layout accepts
+			ks = c13RespellPool(r, size)
+		case 10: // numbers that are the same float64 in several spellings
+			ks = c13NumTiePool(r, size)
+		case 11: // case spellings of the same weekday / month
+			ks = c13CtxTiePool(r, size)
+		default:
+			ks = c13KeySet(r, class, size)
+		}
+		set := c13MakeSet(r, ks)
+		if r.Chance(1, 4) {
+			set.values = c13TieValues(r, len(ks))
+		}
 		size = len(set.keys)
 		name := c13SortName(r)
-		if r.Chance(1, 3) { // aim the mode at the data
+		if r.Chance(1, 3) || (class >= 8 && r.Chance(1, 2)) { // aim the mode at the data
 			switch class {
-			case 0:
+			case 0, 10:
 				name = "numeric" + Pick(r, c13Mods)
-			case 2, 3, 7:
+			case 2, 3, 7, 11:
 				name = Pick(r, []string{"contextual", "context", "date"}) + Pick(r, c13Mods)
-			case 4, 5:
+			case 4, 5, 8, 9:
 				name = "date" + Pick(r, c13Mods)
 			}
 		}
+		dateMode := c13BaseMode(name) == "date"
 		perms := [][]int{c13Perm(r, size), c13Perm(r, size)}
 		for _, p := range perms {
 			out = append(out, set.line("sort", name, c13IntsField(p)))
@@ -890,6 +914,26 @@ func c13Gen(r *Rand, tier string) []string {
 		}
 		if size <= 9 && r.Chance(1, 2) {
 			out = append(out, set.line("axioms", name, ""))
+		}
+		if dateMode || (class == 8 || class == 9 || class == 4 || class == 5) && r.Chance(1, 2) {
+			// the same questions with time.Parse computed by the model (layouts instead of instants)
+			dname := name
+			if !dateMode {
+				dname = "date" + Pick(r, c13Mods)
+			}
+			out = append(out, set.dline("dsort", dname, c13IntsField(perms[0])), set.dline("dsort", dname, c13IntsField(perms[1])))
+			if c13SpecOK(dname, set.keys) {
+				out = append(out, set.dline("dsortspec", dname, c13IntsField(perms[1])))
+			}
+			if size > 0 {
+				out = append(out, set.dline("dcmpseq", dname, c13Record(dname, set, perms[0])))
+			}
+			if size <= 9 {
+				out = append(out, set.dline("daxioms", dname, ""))
+			}
+			if r.Chance(1, 2) {
+				out = append(out, c13TParseCases(r, set.keys)...)
+			}
 		}
 	}
 	// the modelled library calls against the real ones
@@ -963,6 +1007,22 @@ func c13Stats(cases []string) map[string]int {
 		st["op."+f[0]]++
 		switch f[0] {
 		case "lowtab":
+			continue
+		case "tparse":
+			lay := string(UnHex(f[1]))
+			for _, k := range UnHexListS(f[2]) {
+				if _, err := time.Parse(lay, k); err != nil {
+					st["tparse.error"]++
+				} else {
+					st["tparse.ok"]++
+				}
+			}
+			if strings.Contains(lay, "-07") || strings.Contains(lay, "Z07") {
+				st["tparse.layoutNumericZone"]++
+			}
+			if strings.Contains(lay, "MST") {
+				st["tparse.layoutZoneAbbr"]++
+			}
 			continue
 		case "pf", "smart":
 			for _, k := range UnHexListS(f[1]) {
@@ -1083,6 +1143,60 @@ func c13Stats(cases []string) map[string]int {
 		if (mode == "contextual" || mode == "context" || mode == "date") && !c13Uniform(mode, keys) {
 			st["stateful.nonUniformSet"]++
 		}
+		// keys denoting one instant: in different zones / in the same zone spelled differently
+		if dates > 1 {
+			type inst struct {
+				at  string
+				off int
+			}
+			byLayout := map[string]map[string][]int{}
+			for _, k := range keys {
+				lay, err := dateparse.ParseFormat(k)
+				if err != nil || lay == "" {
+					continue
+				}
+				for _, k2 := range keys {
+					if t, err := time.Parse(lay, k2); err == nil {
+						if byLayout[lay] == nil {
+							byLayout[lay] = map[string][]int{}
+						}
+						_, off := t.Zone()
+						byLayout[lay][instant(t)] = append(byLayout[lay][instant(t)], off)
+					}
+				}
+			}
+			zones, same := false, false
+			for _, m := range byLayout {
+				for _, offs := range m {
+					for _, o := range offs[1:] {
+						if o != offs[0] {
+							zones = true
+						} else {
+							same = true
+						}
+					}
+				}
+			}
+			if zones {
+				st["keys.sameInstantDifferentZones"]++
+			}
+			if same {
+				st["keys.sameInstantSameZoneRespelled"]++
+			}
+		}
+		if f[3] != "." {
+			vs := strings.Split(f[3], ",")
+			cnt := map[string]int{}
+			for _, v := range vs {
+				cnt[v]++
+			}
+			for _, c := range cnt {
+				if c > 1 {
+					st["values.withTies"]++
+					break
+				}
+			}
+		}
 	}
 	return st
 }
@@ -1170,6 +1284,34 @@ func c13Corpus() []string {
 	w3 := c13MakeSet(rr, []string{"2022-10-01", "2022-9-3", "2022-09-02"})
 	w3.values = "0,0,0"
 	out = append(out, w3.line("sortspec", "date", "0,1,2"))
+	// round 4: keys denoting ONE instant in different zones (time.Time == also compares the zone pointer; Equal does not):
+	// every arrival order, both with the instants as data (sort/axioms) and with time.Parse computed by the model (d-ops)
+	zoneKeys := []string{"2022-09-03T09:30:00+0000", "2022-09-03T10:00:00+0000", "2022-09-03T12:00:00+0200", "2022-09-03T05:00:00-0500", "2022-09-03T11:15:00+0000"}
+	all("date", zoneKeys)
+	all("date:desc", zoneKeys[1:4])
+	all("date", []string{"2022-09-03 10:00:00 MST", "2022-09-03 10:00:00 PST", "2022-09-03 10:00:00 UTC", "2022-09-03 09:59:59 CEST"})
+	all("date", []string{"03/Sep/2022:12:00:00 +0200", "03/Sep/2022:10:00:00 +0000", "03/Sep/2022:15:30:00 +0530", "03/Sep/2022:11:00:00 +0200"})
+	for _, ks := range [][]string{zoneKeys, {"2022-09-03 10:00:00 MST", "2022-09-03 10:00:00 PST", "2022-09-03 12:00:00 GMT+2", "2022-09-03 10:00:00 UTC"},
+		{"2022-09-03T12:00:00+02:00", "2022-09-03T10:00:00Z", "2022-09-03T10:00:00+00:00", "2022-09-03T04:15:00-05:45"},
+		{"2022-09-03 10:00:00", "2022-09-03 10:00:00.0", "2022-09-03 10:00:00.000", "2022-09-03 10:00:00,000", "2022-09-03 10:00:01"},
+		{"Sep 3, 2022", "sep 3, 2022", "SEP 3, 2022", "Sep 03, 2022", "Sep 4, 2022"}} {
+		set := c13MakeSet(rr, ks)
+		set.values = strings.TrimSuffix(strings.Repeat("1,", len(ks)), ",")
+		for _, nm := range []string{"date", "date:desc"} {
+			for i := 0; i < 8; i++ {
+				out = append(out, set.dline("dsort", nm, c13IntsField(c13Perm(rr, len(ks)))))
+			}
+			if c13SpecOK(nm, ks) {
+				out = append(out, set.dline("dsortspec", nm, c13IntsField(c13Perm(rr, len(ks)))), set.dline("dagg", nm, c13IntsField(c13Perm(rr, len(ks)))))
+			}
+			out = append(out, set.dline("daxioms", nm, ""), set.dline("dcmpseq", nm, c13Record(nm, set, c13Perm(rr, len(ks)))))
+		}
+		out = append(out, c13TParseCases(rr, ks)...)
+	}
+	out = append(out, "tparse "+HexS("2006-01-02T15:04:05-0700")+" "+HexListS([]string{"2022-09-03T10:00:00+0000", "2022-09-03T12:00:00+0200", "2022-09-03T05:00:00-0500",
+		"2022-09-03T10:00:00+2400", "2022-09-03T10:00:00+2500", "2022-09-03T10:00:00+0060", "2022-09-03T10:00:00+0061", "2022-09-03T10:00:00 0000", "2022-09-03T10:00:00Z",
+		"2022-09-03T24:00:00+0000", "2022-02-29T10:00:00+0000", "2024-02-29T10:00:00+0000", "2022-09-03T10:00:00.5+0000", "2022-09-03T10:00:00,25+0000", "2022-09-03T10:00:60+0000",
+		"0000-01-01T00:00:00+0000", "9999-12-31T23:59:59-2359", "2022-9-3T10:00:00+0000", "", "2022-09-03T10:00:00+000", "2022-09-03T10:00:00+00000"}))
 	return out
 }
 
